@@ -18,6 +18,9 @@ func init() {
 }
 
 func runC13(p *Prog, r *Report) {
+	if want("C13.22") {
+		ruleOptGetters(p, r, "C13.22", "block parameters > 0 and block strictness", "Options.GetBlockRestartInterval", "Options.GetBlockSize", "Options.GetFilterBaseLg", "Options.GetStrict", "ReadOptions.GetStrict")
+	}
 	if want("C13.21") {
 		// (shared with C08) damaged blocks are reported, not skipped, when tables are rewritten
 		ruleCompactionInputsStrict(p, r, "C13.21")
